@@ -2,7 +2,8 @@
  * C20 -- s-expression reader (src/sx.c): bounded-exhaustive enumeration of
  * closed executions against an independent recursive-descent reference reader.
  *
- * Two input families (DESIGN.md section 3, C20):
+ * Input families (DESIGN.md section 3, C20); (g) is enumerated first, then (a)
+ * to (f) and (h):
  *   (a) every tree of <= N nodes / depth <= D over a small vocabulary, rendered
  *       in seven whitespace / radix styles; the expected tree is the generator
  *       tree, the expected position is the renderer's "just past the
@@ -11,6 +12,24 @@
  *   (b) every string of length 0..L over the ten characters
  *       ( ) space newline a 1 # x F -  ; expected verdict/tree/position from
  *       the reference reader.
+ *   (c) every octet 0..255 at the marked position(s) of small templates (in
+ *       front of, behind and between atoms and parentheses); (d) every string
+ *       up to a length over two further alphabets (VT FF CR HT; NUL, 0x80,
+ *       0xff, '+');
+ *   (e) flat lists of every length up to a bound and of 2^p-1..2^p+1 elements
+ *       up to 65537, (f) nests of every depth up to a bound and 2^p-1..2^p+1
+ *       levels, both complete and broken in several ways -- the sizes straddle
+ *       every threshold at which a reader could grow an array, switch a counter
+ *       type or run into a fixed limit;
+ *   (g) call histories: all ordered pairs and triples (thorough: quadruples of a
+ *       core) of a family of accepted, refused and deep inputs, and refused
+ *       inputs repeated 1..129 times before a probe, all inside one case (the
+ *       runner starts one process per shard, a replay runs one case alone).
+ *       The statement gives the result as a function of the input alone, so
+ *       every call of a history is held against the reference reader;
+ *   (h) symbols of every length up to a bound and 2^p-1..2^p+1 octets up to
+ *       65537, and the integers 0, 2^k-1, 2^k, 2^k+1 (k = 1..64), 10^k-1, 10^k
+ *       in decimal and both hex cases, each in several surroundings.
  * Every input is presented twice, each presentation being one case:
  *   via=string   NUL-terminated (block of exactly n+1 octets) -> sx_parse_string
  *   via=stringn  heap block of exactly n octets, no terminator -> sx_parse_stringn
@@ -41,6 +60,13 @@
  *   OPEN.  '{' and '}' inside such a token are pinned as "not a symbol" by
  *   t_sx_parse_token_error_symbol ("foo{}") and stay an error.
  *
+ *   Whitespace is space, tab, newline, carriage return; vertical tab and form
+ *   feed are whitespace iff the reader under test reads "(" c ")" as the empty
+ *   list (asked inside each case that contains them; see ws_extra below) --
+ *   what is demanded is that the reader treats them the same way in every
+ *   position.  A token that contains an octet without a role (controls, NUL in
+ *   length-delimited input, >= 0x7f, other punctuation) is OPEN.
+ *
  * "No allocation leaked": a block that is still live when the parser returns
  * an error (or after sx_destroy of the returned tree) is a leak only if the
  * same happens again when the same input is presented a second time; a block
@@ -52,19 +78,30 @@
 
 #include <ctype.h>
 #include <inttypes.h>
+#include <errno.h>
+#include <pthread.h>
+#include <sys/wait.h>
 
 #include <ufw/sx.h>
 
 /* ------------------------------------------------------------------------
  * allocation ledger (link-time wrappers)
  * ---------------------------------------------------------------------- */
-#define LEDGER_MAX 4096
+/* Open-addressing pointer set (linear probing, backward-shift deletion, so the
+ * table is clean whenever nothing is live) plus the list of everything added
+ * since ledger_start(), which is what a later ledger_start() removes if blocks
+ * are still live.  Sized for the longest lists of the len family (65537
+ * elements, a handful of allocations each). */
+#define LEDGER_SLOTS (1u << 21)
+#define LEDGER_MAX (1 << 20)
 static struct {
     bool on;
     int live;
     int made;
     bool overflow;
-    void *p[LEDGER_MAX];
+    void **slot;  /* LEDGER_SLOTS entries */
+    void **order; /* LEDGER_MAX entries: blocks added in this session */
+    int norder;
 } ledger;
 
 void *__real_malloc(size_t);
@@ -74,17 +111,60 @@ void __real_free(void *);
 char *__real_strdup(const char *);
 char *__real_strndup(const char *, size_t);
 
+static inline uint32_t
+ledger_hash(const void *p)
+{
+    uint64_t x = (uint64_t)(uintptr_t)p >> 3;
+    x *= 0x9E3779B97F4A7C15ull;
+    return (uint32_t)(x >> 40) & (LEDGER_SLOTS - 1u);
+}
+
 static void
 ledger_add(void *p)
 {
     if (!ledger.on || p == NULL)
         return;
     ledger.made++;
-    if (ledger.live >= LEDGER_MAX) {
+    if (ledger.live >= LEDGER_MAX || ledger.norder >= LEDGER_MAX) {
         ledger.overflow = true;
         return;
     }
-    ledger.p[ledger.live++] = p;
+    uint32_t i = ledger_hash(p);
+    while (ledger.slot[i] != NULL) {
+        if (ledger.slot[i] == p)
+            return; /* cannot happen for a live block; keep the set a set */
+        i = (i + 1u) & (LEDGER_SLOTS - 1u);
+    }
+    ledger.slot[i] = p;
+    ledger.order[ledger.norder++] = p;
+    ledger.live++;
+}
+
+static void
+ledger_remove(void *p)
+{
+    uint32_t i = ledger_hash(p);
+    while (ledger.slot[i] != p) {
+        if (ledger.slot[i] == NULL)
+            return; /* a block the parser did not allocate: not the ledger's
+                     * business (an invalid or double free is reported by ASan) */
+        i = (i + 1u) & (LEDGER_SLOTS - 1u);
+    }
+    ledger.slot[i] = NULL;
+    ledger.live--;
+    uint32_t j = i;
+    for (;;) {
+        j = (j + 1u) & (LEDGER_SLOTS - 1u);
+        if (ledger.slot[j] == NULL)
+            break;
+        const uint32_t k = ledger_hash(ledger.slot[j]);
+        /* leave the entry where it is if its home k lies cyclically in (i, j] */
+        if ((i <= j) ? (i < k && k <= j) : (i < k || k <= j))
+            continue;
+        ledger.slot[i] = ledger.slot[j];
+        ledger.slot[j] = NULL;
+        i = j;
+    }
 }
 
 static void
@@ -92,13 +172,7 @@ ledger_del(void *p)
 {
     if (!ledger.on || p == NULL)
         return;
-    for (int i = ledger.live - 1; i >= 0; --i)
-        if (ledger.p[i] == p) {
-            ledger.p[i] = ledger.p[--ledger.live];
-            return;
-        }
-    /* a block the parser did not allocate: not the ledger's business (an
-     * invalid or double free is reported by ASan) */
+    ledger_remove(p);
 }
 
 void *
@@ -153,7 +227,19 @@ __wrap_strndup(const char *s, size_t n)
 static void
 ledger_start(void)
 {
-    ledger.live = 0;
+    ledger.on = false;
+    if (ledger.slot == NULL) {
+        ledger.slot = __real_calloc(LEDGER_SLOTS, sizeof *ledger.slot);
+        ledger.order = __real_calloc(LEDGER_MAX, sizeof *ledger.order);
+        if (ledger.slot == NULL || ledger.order == NULL)
+            mc_broken("no memory for the allocation ledger");
+    }
+    if (ledger.live > 0)
+        for (int k = 0; k < ledger.norder; ++k)
+            ledger_remove(ledger.order[k]);
+    if (ledger.live != 0)
+        mc_broken("allocation ledger out of step with itself");
+    ledger.norder = 0;
     ledger.made = 0;
     ledger.overflow = false;
     ledger.on = true;
@@ -166,18 +252,22 @@ enum rkind { R_SYM, R_INT, R_LIST };
 struct rnode {
     enum rkind kind;
     uint64_t val;
-    char sym[24];
+    const char *sym; /* symlen octets, in the input text or in the vocabulary: not terminated */
+    size_t symlen;
     int first, last, next; /* children of a list: first-child / next-sibling */
 };
-#define RMAX 512
-static struct rnode R[RMAX];
-static int nR;
+static struct rnode *R; /* grows on demand; nodes are referred to by index only */
+static int nR, capR;
 
 static int
 r_new(enum rkind k)
 {
-    if (nR == RMAX)
-        mc_broken("reference arena exhausted");
+    if (nR == capR) {
+        capR = capR ? 2 * capR : 512;
+        R = realloc(R, (size_t)capR * sizeof *R); /* the ledger is off while the reference reader runs */
+        if (R == NULL)
+            mc_broken("reference arena exhausted");
+    }
     struct rnode *x = &R[nR];
     memset(x, 0, sizeof *x);
     x->kind = k;
@@ -201,7 +291,7 @@ r_equal(int a, int b)
     if (R[a].kind != R[b].kind)
         return false;
     switch (R[a].kind) {
-    case R_SYM: return strcmp(R[a].sym, R[b].sym) == 0;
+    case R_SYM: return R[a].symlen == R[b].symlen && memcmp(R[a].sym, R[b].sym, R[a].symlen) == 0;
     case R_INT: return R[a].val == R[b].val;
     case R_LIST: {
         int x = R[a].first, y = R[b].first;
@@ -227,9 +317,21 @@ struct reader {
     enum errclass err;
     /* what the accepted part contained (classification only) */
     bool saw_list, saw_nested_list, saw_nested_empty, saw_hex, saw_hex_upper;
+    bool open_unclassified; /* V_OPEN because of an octet nobody classifies */
+    int deepest;            /* deepest list nesting entered */
+    long longest;           /* most direct elements of one completed list */
 };
 
-static bool ref_ws(char c) { return c == ' ' || c == '\n' || c == '\t'; }
+/* Inter-token whitespace.  Space, tab, newline and carriage return are
+ * whitespace under every definition in use (C, scheme, JSON, XML).  Vertical
+ * tab and form feed are whitespace for C's isspace() and not for other
+ * definitions; the statement says "whitespace" without a list, so for these two
+ * the reader under test decides -- but it has to decide once: a case whose input
+ * contains VT or FF first asks the reader whether it reads "(" c ")" as the
+ * empty list ending at 3 (ws_extra[c]), and the input is then judged with c as
+ * whitespace everywhere, or as an unclassified octet everywhere. */
+static bool ws_extra[256];
+static bool ref_ws(char c) { return c == ' ' || c == '\n' || c == '\t' || c == '\r' || ws_extra[(unsigned char)c]; }
 static bool ref_delim(char c) { return c == '(' || c == ')' || ref_ws(c); }
 static bool ref_letter(char c) { return (c >= 'a' && c <= 'z') || (c >= 'A' && c <= 'Z'); }
 static bool ref_dec(char c) { return c >= '0' && c <= '9'; }
@@ -277,6 +379,9 @@ rd_expr(struct reader *r, int depth)
         r->saw_list = true;
         if (depth > 0)
             r->saw_nested_list = true;
+        if (depth + 1 > r->deepest)
+            r->deepest = depth + 1;
+        long count = 0;
         for (;;) {
             const size_t before = r->i;
             rd_skip(r);
@@ -286,12 +391,15 @@ rd_expr(struct reader *r, int depth)
                 r->i++;
                 if (depth > 0 && R[list].first < 0)
                     r->saw_nested_empty = true;
+                if (count > r->longest)
+                    r->longest = count;
                 return list;
             }
             const int child = rd_expr(r, depth + 1);
             if (child < 0)
                 return -1;
             r_append(list, child);
+            count++;
         }
     }
     /* an atom: the maximal run of non-delimiters */
@@ -301,6 +409,20 @@ rd_expr(struct reader *r, int depth)
     const char *t = r->s + r->i;
     const size_t len = j - r->i;
     const enum errclass tokerr = depth ? E_TOKEN_IN_LIST : E_TOKEN;
+    /* Octets that neither the statement nor the documentation nor a unit test
+     * gives a role to (controls, NUL inside length-delimited input, octets
+     * >= 0x7f, punctuation other than ( ) # -, VT/FF when the reader does not
+     * take them as whitespace; '{' and '}' except behind a symbol start, where
+     * "foo{}" pins them): a token that contains one is OPEN. */
+    for (size_t k = 0; k < len; ++k) {
+        const char u = t[k];
+        if (ref_letter(u) || ref_dec(u) || u == '-' || u == '#')
+            continue;
+        if ((u == '{' || u == '}') && ref_letter(t[0]))
+            continue;
+        r->open_unclassified = true;
+        return rd_fail(r, V_OPEN, E_NONE);
+    }
     if (t[0] == '-')
         return rd_fail(r, V_OPEN, E_NONE);
     if (ref_dec(t[0])) {
@@ -308,7 +430,7 @@ rd_expr(struct reader *r, int depth)
         for (size_t k = 0; k < len; ++k) {
             if (!ref_dec(t[k]))
                 return rd_fail(r, V_ERR, tokerr);
-            if (v > (UINT64_MAX - 9u) / 10u)
+            if (v > UINT64_MAX / 10u || (v == UINT64_MAX / 10u && (uint64_t)(t[k] - '0') > UINT64_MAX % 10u))
                 mc_broken("generated a decimal literal beyond 64 bits");
             v = v * 10u + (uint64_t)(t[k] - '0');
         }
@@ -352,10 +474,8 @@ rd_expr(struct reader *r, int depth)
         if (unclassified)
             return rd_fail(r, V_OPEN, E_NONE);
         const int x = r_new(R_SYM);
-        if (len >= sizeof R[x].sym)
-            mc_broken("generated a symbol longer than the reference arena allows");
-        memcpy(R[x].sym, t, len);
-        R[x].sym[len] = 0;
+        R[x].sym = t; /* lives as long as the input of the case */
+        R[x].symlen = len;
         r->i = j;
         return x;
     }
@@ -369,6 +489,8 @@ struct expect {
     size_t pos; /* V_OK: just past the expression */
     bool nontrivial;
     const char *outcome;
+    int deepest;  /* as far as the reference reader got */
+    long longest;
 };
 
 static void
@@ -386,6 +508,8 @@ ref_read(const char *s, size_t n, struct expect *e)
     e->root = root;
     e->pos = r.i;
     e->nontrivial = r.saw_list || r.saw_hex;
+    e->deepest = r.deepest;
+    e->longest = r.longest;
     if (root >= 0) {
         if (r.saw_hex_upper) e->outcome = "ok-hex-upper";
         else if (r.saw_nested_empty) e->outcome = "ok-nested-empty";
@@ -398,7 +522,8 @@ ref_read(const char *s, size_t n, struct expect *e)
         else e->outcome = "ok-decimal";
     } else if (r.verdict == V_OPEN) {
         /* the token that left it open starts at r.i */
-        e->outcome = (r.i < n && s[r.i] == '-') ? "open-dash-token" : "open-symbol-character";
+        e->outcome = r.open_unclassified ? "open-unclassified-octet"
+                     : (r.i < n && s[r.i] == '-') ? "open-dash-token" : "open-symbol-character";
     } else {
         switch (r.err) {
         case E_BLANK: e->outcome = "err-blank"; break;
@@ -426,11 +551,14 @@ cmp_tree(int ri, const struct sx_node *x, char *why, size_t wn)
     switch (R[ri].kind) {
     case R_SYM:
         if (x->type != SXT_SYMBOL || x->data.symbol == NULL) {
-            snprintf(why, wn, "node type %d where the reference has the symbol %s", (int)x->type, R[ri].sym);
+            snprintf(why, wn, "node type %d where the reference has the symbol %.*s%s", (int)x->type,
+                     (int)(R[ri].symlen < 40 ? R[ri].symlen : 40), R[ri].sym, R[ri].symlen > 40 ? "..." : "");
             return "C20/tree-identical";
         }
-        if (strcmp(x->data.symbol, R[ri].sym) != 0) {
-            snprintf(why, wn, "symbol \"%.40s\" where the reference has %s", x->data.symbol, R[ri].sym);
+        if (strlen(x->data.symbol) != R[ri].symlen || memcmp(x->data.symbol, R[ri].sym, R[ri].symlen) != 0) {
+            snprintf(why, wn, "symbol \"%.40s\" (%zu octets) where the reference has %.*s%s (%zu octets)", x->data.symbol,
+                     strlen(x->data.symbol), (int)(R[ri].symlen < 40 ? R[ri].symlen : 40), R[ri].sym,
+                     R[ri].symlen > 40 ? "..." : "", R[ri].symlen);
             return "C20/tree-identical";
         }
         return NULL;
@@ -508,14 +636,265 @@ show_tree(const struct sx_node *x, char *buf, size_t n, size_t l, int budget)
 /* ------------------------------------------------------------------------
  * one input, two presentations
  * ---------------------------------------------------------------------- */
+/* ------------------------------------------------------------------------
+ * Failures of a sweep are confirmed before they are reported.
+ *
+ * A shard runs its cases one after the other in one process, a replay runs one
+ * case alone in a fresh process.  If the reader keeps state between calls, a
+ * case can fail in the sweep because of what the process parsed before and
+ * hold when replayed.  So a case that fails during a sweep is first run once
+ * more in a fresh process (this executable with --only idx):
+ *   - it fails there too: reported as it is;
+ *   - it holds there: the reader's answer to these octets depends on earlier
+ *     calls.  That is reported as the case "the sweep of shard r/n from the
+ *     first case up to case idx, in one process" -- number
+ *     META_BASE + idx * 64 + (n - 1) -- whose replay walks exactly that prefix
+ *     quietly and then runs case idx with the log on.  The shard stops there:
+ *     nothing it would observe afterwards could be trusted to replay.
+ * The history family (g) is the designed place for such defects and runs first;
+ * this is the net under it.
+ * ---------------------------------------------------------------------- */
+#define META_BASE ((int64_t)1 << 40)
+static struct {
+    bool on;        /* this process replays a sweep prefix */
+    int64_t target; /* ... up to and including this case */
+    int64_t number; /* the number it was asked for */
+} meta;
+static struct {
+    bool pending;
+    char clause[64];
+    char detail[600];
+} deferred;
+
+static void c20_fail(const char *clause, const char *fmt, ...) __attribute__((format(printf, 2, 3)));
+static void
+c20_fail(const char *clause, const char *fmt, ...)
+{
+    if (!mc.active)
+        return;
+    char detail[600];
+    va_list ap;
+    va_start(ap, fmt);
+    vsnprintf(detail, sizeof detail, fmt, ap);
+    va_end(ap);
+    if (meta.on) {
+        if (mc.cur == meta.target)
+            mc_fail(clause, "%s", detail);
+        return; /* cases of the prefix were judged by the sweep */
+    }
+    if (mc.only >= 0) {
+        mc_fail(clause, "%s", detail);
+        return;
+    }
+    if (mc.verbose)
+        printf("FAIL %s: %s\n", clause, detail);
+    if (deferred.pending)
+        return; /* one record per case: the first oracle sentence that failed */
+    deferred.pending = true;
+    snprintf(deferred.clause, sizeof deferred.clause, "%s", clause);
+    snprintf(deferred.detail, sizeof deferred.detail, "%s", detail);
+}
+
+/* 1: case idx fails `clause` (or dies) in a fresh process; 0: it holds there;
+ * -1: could not find out */
+static int
+fails_in_fresh_process(int64_t idx, const char *clause)
+{
+    int fd[2];
+    if (pipe(fd) != 0)
+        return -1;
+    fflush(NULL);
+    const pid_t pid = fork();
+    if (pid < 0) {
+        close(fd[0]);
+        close(fd[1]);
+        return -1;
+    }
+    if (pid == 0) {
+        char num[32];
+        snprintf(num, sizeof num, "%lld", (long long)idx);
+        dup2(fd[1], 1);
+        const int nul = open("/dev/null", O_WRONLY);
+        if (nul >= 0)
+            dup2(nul, 2);
+        close(fd[0]);
+        close(fd[1]);
+        execl("/proc/self/exe", "c20_sx", "--tier", mc.tier ? "thorough" : "quick", "--only", num, (char *)NULL);
+        _exit(127);
+    }
+    close(fd[1]);
+    char needle[96];
+    snprintf(needle, sizeof needle, "FAIL %s:", clause);
+    const size_t nl = strlen(needle);
+    /* stream search: keep the last nl-1 octets between reads */
+    char win[8192 + 96];
+    size_t have = 0;
+    bool found = false;
+    for (;;) {
+        const ssize_t got = read(fd[0], win + have, 8192);
+        mc.tick_same = 0; /* waiting for the child is progress */
+        if (got < 0 && errno == EINTR)
+            continue;
+        if (got <= 0)
+            break;
+        have += (size_t)got;
+        win[have] = 0;
+        for (size_t k = 0; !found && k + nl <= have; ++k)
+            if (win[k] == 'F' && memcmp(win + k, needle, nl) == 0)
+                found = true;
+        if (have >= nl) {
+            memmove(win, win + have - (nl - 1), nl - 1);
+            have = nl - 1;
+        }
+    }
+    close(fd[0]);
+    int st = 0;
+    while (waitpid(pid, &st, 0) < 0 && errno == EINTR)
+        mc.tick_same = 0;
+    if (found)
+        return 1;
+    if (WIFEXITED(st) && (WEXITSTATUS(st) == 0 || WEXITSTATUS(st) == 3))
+        return 0;
+    if (WIFEXITED(st) && (WEXITSTATUS(st) == 127 || WEXITSTATUS(st) == 2))
+        return -1;
+    return 1; /* sanitizer abort, signal, watchdog */
+}
+
+/* Inside the history family a failure that does not hold alone is only
+ * remembered: the family enumerates the explicit, self-contained form of such
+ * defects, which is the better report.  If the shard found none by the end of
+ * the family, the remembered one is reported after all. */
+static bool in_history_family;
+static struct {
+    bool pending;
+    int64_t cur;
+    char desc[MC_DESC_MAX];
+    char clause[64];
+    char detail[600];
+} held;
+
+static void
+report_sweep_prefix(int64_t orig, const char *desc, const char *clause, const char *detail)
+{
+    char d[MC_DESC_MAX];
+    snprintf(d, sizeof d, "sweep of shard %d/%d from its first case up to case %lld in one process; that case: %s",
+             mc.shard, mc.nshards, (long long)orig, desc);
+    mc.cur = META_BASE + orig * 64 + (mc.nshards - 1);
+    mc.cur_failed = false;
+    mc.active = true;
+    memcpy(mc.desc, d, sizeof mc.desc);
+    memcpy(mc.inflight->desc, mc.desc, sizeof mc.desc);
+    mc.inflight->idx = mc.cur;
+    mc_fail(clause, "%s -- case %lld alone, in a fresh process, holds: the reader's answer depends on the inputs this process parsed before",
+            detail, (long long)orig);
+    mc_cap("results depend on earlier calls: shard stopped at case %lld", (long long)orig);
+    mc_finish(false, "sweep stopped");
+    exit(3);
+}
+
+/* fresh processes a shard may start for failures that then hold alone */
+#define UNCONFIRMED_BUDGET 16
+static int unconfirmed;
+
+static void
+resolve_deferred(void)
+{
+    deferred.pending = false;
+    const int r = fails_in_fresh_process(mc.cur, deferred.clause);
+    if (r != 0 || mc.skip != 0 || mc.nshards > 64) {
+        mc_fail(deferred.clause, "%s", deferred.detail);
+        return;
+    }
+    if (in_history_family) {
+        if (!held.pending) {
+            held.pending = true;
+            held.cur = mc.cur;
+            memcpy(held.desc, mc.desc, sizeof held.desc);
+            memcpy(held.clause, deferred.clause, sizeof held.clause);
+            memcpy(held.detail, deferred.detail, sizeof held.detail);
+        }
+        if (++unconfirmed >= UNCONFIRMED_BUDGET) {
+            /* the process is evidently out of step with a fresh one: stop here */
+            if (mc.violations == 0)
+                report_sweep_prefix(held.cur, held.desc, held.clause, held.detail);
+            mc_cap("results depend on earlier calls: shard stopped at case %lld", (long long)mc.cur);
+            mc_finish(false, "sweep stopped");
+            exit(3);
+        }
+        return;
+    }
+    char desc[MC_DESC_MAX];
+    memcpy(desc, mc.desc, sizeof desc);
+    report_sweep_prefix(mc.cur, desc, deferred.clause, deferred.detail);
+}
+
+static void
+history_family_done(void)
+{
+    in_history_family = false;
+    if (held.pending && mc.violations == 0)
+        report_sweep_prefix(held.cur, held.desc, held.clause, held.detail);
+    held.pending = false;
+}
+
+static void
+meta_before_case(void)
+{
+    if (meta.on && mc.idx == meta.target) {
+        printf("CASE %lld sweep of shard %d/%d from its first case up to case %lld in one process; that case follows\n",
+               (long long)meta.number, mc.shard, mc.nshards, (long long)meta.target);
+        mc.verbose = true;
+    }
+}
+
+#define c20_case(...) (meta_before_case(), mc_case(__VA_ARGS__))
+
+static void
+c20_end(bool nontrivial, const char *outcome)
+{
+    if (!mc.active)
+        return;
+    if (deferred.pending)
+        resolve_deferred();
+    mc_end(nontrivial, outcome);
+    if (meta.on && mc.cur == meta.target) {
+        mc_finish(true, "replay of a sweep prefix");
+        fflush(NULL);
+        exit(0);
+    }
+}
+
+/* --only with a number >= META_BASE: become the sweep it stands for */
+static void
+meta_setup(void)
+{
+    if (mc.only < META_BASE)
+        return;
+    meta.on = true;
+    meta.number = mc.only;
+    const int64_t x = mc.only - META_BASE;
+    mc.nshards = (int)(x % 64) + 1;
+    meta.target = x / 64;
+    mc.shard = (int)(meta.target % mc.nshards);
+    mc.only = -1;
+    mc.skip = 0;
+    mc.verbose = false;
+    mc.out = fopen("/dev/null", "w");
+    if (mc.out == NULL)
+        mc_broken("cannot open /dev/null");
+}
+
 static void
 escape(const char *s, size_t n, char *out, size_t on)
 {
     size_t l = 0;
-    for (size_t i = 0; i < n && l + 3 < on; ++i) {
-        if (s[i] == '\n') { out[l++] = '\\'; out[l++] = 'n'; }
-        else if (s[i] == '\t') { out[l++] = '\\'; out[l++] = 't'; }
-        else out[l++] = s[i];
+    for (size_t i = 0; i < n && l + 5 < on; ++i) {
+        const unsigned char c = (unsigned char)s[i];
+        if (c == '\n') { out[l++] = '\\'; out[l++] = 'n'; }
+        else if (c == '\t') { out[l++] = '\\'; out[l++] = 't'; }
+        else if (c < 0x20 || c >= 0x7f || c == '"' || c == '\\')
+            l += (size_t)snprintf(out + l, on - l, "\\x%02x", c);
+        else out[l++] = (char)c;
     }
     out[l] = 0;
 }
@@ -551,6 +930,101 @@ live_on_second_presentation(int via, const char *buf, size_t n)
     return ledger.live;
 }
 
+/* One call of the reader under the oracle: `in`/n are the octets given to it
+ * (via=0: NUL-terminated copy in a block of exactly n+1 octets, the caller has
+ * made sure that there is no NUL among the n; via=1: block of exactly n
+ * octets), e is what the statement demands for these octets, ctx is put in
+ * front of every failure detail ("" or "step 2 of 3: ").  Not a case of its
+ * own: the caller has opened one with mc_case and closes it with mc_end. */
+static void
+run_one(int via, const char *in, size_t n, const struct expect *e, const char *ctx)
+{
+    mc_trans(1);
+    char *buf;
+    if (via == 0) {
+        buf = mc_exact(n + 1);
+        memcpy(buf, in, n);
+        buf[n] = 0;
+    } else {
+        buf = mc_exact_copy(in, n);
+    }
+    ledger_start();
+    struct sx_parse_result res = via ? sx_parse_stringn(buf, n) : sx_parse_string(buf);
+    ledger.on = false;
+    const int live = ledger.live;
+    if (mc.verbose) {
+        char tb[400];
+        tb[0] = 0;
+        show_tree(res.node, tb, sizeof tb, 0, 12);
+        mc_log("%sreference: %s%s", ctx, e->verdict == V_OK ? "complete expression, " : e->verdict == V_ERR ? "no complete expression, " : "grammar leaves it open, ", e->outcome);
+        if (e->verdict == V_OK)
+            mc_log("%sreference position=%zu", ctx, e->pos);
+        mc_log("%ssx: status=%d position=%zu tree=%s allocations made=%d live=%d",
+               ctx, (int)res.status, res.position, tb, ledger.made, live);
+    }
+    if (ledger.overflow)
+        c20_fail("C20/terminates", "%smore than %d allocations for %zu input octets", ctx, LEDGER_MAX, n);
+
+    /* unconditional: an error status comes without a tree and without live allocations */
+    if (!is_success(res.status) && res.node != NULL)
+        c20_fail("C20/no-tree-on-error", "%sstatus %d with a non-null tree", ctx, (int)res.status);
+    if (!is_success(res.status) && res.node == NULL && live != 0) {
+        const int again = live_on_second_presentation(via, buf, n);
+        if (again != 0)
+            c20_fail("C20/no-leak-on-error", "%sstatus %d, no tree, %d allocation(s) still live (%d on a second presentation)",
+                    ctx, (int)res.status, live, again);
+    }
+    if (is_success(res.status) && res.node == NULL) {
+        if (e->verdict == V_OK)
+            c20_fail("C20/complete-is-parsed", "%ssuccess status without a tree", ctx);
+        else
+            c20_fail("C20/success-without-tree", "%sstatus success (0) with a null tree: neither a tree nor an error status", ctx);
+        if (live != 0) {
+            const int again = live_on_second_presentation(via, buf, n);
+            if (again != 0)
+                c20_fail("C20/no-leak-on-error", "%sno tree, %d allocation(s) still live (%d on a second presentation)", ctx, live, again);
+        }
+    }
+
+    switch (e->verdict) {
+    case V_OK:
+        if (!is_success(res.status)) {
+            c20_fail("C20/complete-is-parsed", "%sstatus %d for an input that begins with a complete expression (ends at %zu)",
+                    ctx, (int)res.status, e->pos);
+        } else if (res.node != NULL) {
+            char why[200];
+            const char *cl = cmp_tree(e->root, res.node, why, sizeof why);
+            if (cl != NULL)
+                c20_fail(cl, "%s%s", ctx, why);
+            else if (res.position != e->pos)
+                c20_fail("C20/position", "%sposition %zu, the expression ends just before %zu", ctx, res.position, e->pos);
+        }
+        break;
+    case V_ERR:
+        if (!is_error(res.status) && res.node != NULL)
+            c20_fail("C20/incomplete-is-error", "%sstatus %d with a tree for an input without a complete expression (%s)",
+                    ctx, (int)res.status, e->outcome);
+        break;
+    case V_OPEN:
+        break;
+    }
+
+    if (res.node != NULL) {
+        ledger.on = true;
+        sx_destroy(&res.node);
+        ledger.on = false;
+        const int dlive = ledger.live;
+        mc_log("%safter sx_destroy: live=%d", ctx, dlive);
+        if (dlive != 0) {
+            const int again = live_on_second_presentation(via, buf, n);
+            if (again != 0)
+                c20_fail("C20/destroy-frees-all", "%s%d allocation(s) of the parser still live after sx_destroy of the returned tree (%d on a second presentation)",
+                        ctx, dlive, again);
+        }
+    }
+    free(buf);
+}
+
 /* Runs the two cases of one input.  `what` is the family part of the
  * descriptor, e is what the statement demands for these octets. */
 static void
@@ -559,93 +1033,10 @@ present(const char *what, const char *in, size_t n, const struct expect *e)
     char esc[300];
     escape(in, n, esc, sizeof esc);
     for (int via = 0; via < 2; ++via) {
-        if (!mc_case("%s len=%zu in=\"%s\" via=%s", what, n, esc, via ? "stringn" : "string"))
+        if (!c20_case("%s len=%zu in=\"%s\" via=%s", what, n, esc, via ? "stringn" : "string"))
             continue;
-        mc_trans(1);
-        char *buf;
-        if (via == 0) {
-            buf = mc_exact(n + 1);
-            memcpy(buf, in, n);
-            buf[n] = 0;
-        } else {
-            buf = mc_exact_copy(in, n);
-        }
-        ledger_start();
-        struct sx_parse_result res = via ? sx_parse_stringn(buf, n) : sx_parse_string(buf);
-        ledger.on = false;
-        const int live = ledger.live;
-        if (mc.verbose) {
-            char tb[400];
-            tb[0] = 0;
-            show_tree(res.node, tb, sizeof tb, 0, 12);
-            mc_log("reference: %s%s", e->verdict == V_OK ? "complete expression, " : e->verdict == V_ERR ? "no complete expression, " : "grammar leaves it open, ", e->outcome);
-            if (e->verdict == V_OK)
-                mc_log("reference position=%zu", e->pos);
-            mc_log("sx: status=%d position=%zu tree=%s allocations made=%d live=%d",
-                   (int)res.status, res.position, tb, ledger.made, live);
-        }
-        if (ledger.overflow)
-            mc_fail("C20/terminates", "more than %d live allocations for %zu input octets", LEDGER_MAX, n);
-
-        /* unconditional: an error status comes without a tree and without live allocations */
-        if (!is_success(res.status) && res.node != NULL)
-            mc_fail("C20/no-tree-on-error", "status %d with a non-null tree", (int)res.status);
-        if (!is_success(res.status) && res.node == NULL && live != 0) {
-            const int again = live_on_second_presentation(via, buf, n);
-            if (again != 0)
-                mc_fail("C20/no-leak-on-error", "status %d, no tree, %d allocation(s) still live (%d on a second presentation)",
-                        (int)res.status, live, again);
-        }
-        if (is_success(res.status) && res.node == NULL) {
-            if (e->verdict == V_OK)
-                mc_fail("C20/complete-is-parsed", "success status without a tree");
-            else
-                mc_fail("C20/success-without-tree", "status success (0) with a null tree: neither a tree nor an error status");
-            if (live != 0) {
-                const int again = live_on_second_presentation(via, buf, n);
-                if (again != 0)
-                    mc_fail("C20/no-leak-on-error", "no tree, %d allocation(s) still live (%d on a second presentation)", live, again);
-            }
-        }
-
-        switch (e->verdict) {
-        case V_OK:
-            if (!is_success(res.status)) {
-                mc_fail("C20/complete-is-parsed", "status %d for an input that begins with a complete expression (ends at %zu)",
-                        (int)res.status, e->pos);
-            } else if (res.node != NULL) {
-                char why[200];
-                const char *cl = cmp_tree(e->root, res.node, why, sizeof why);
-                if (cl != NULL)
-                    mc_fail(cl, "%s", why);
-                else if (res.position != e->pos)
-                    mc_fail("C20/position", "position %zu, the expression ends just before %zu", res.position, e->pos);
-            }
-            break;
-        case V_ERR:
-            if (!is_error(res.status) && res.node != NULL)
-                mc_fail("C20/incomplete-is-error", "status %d with a tree for an input without a complete expression (%s)",
-                        (int)res.status, e->outcome);
-            break;
-        case V_OPEN:
-            break;
-        }
-
-        if (res.node != NULL) {
-            ledger.on = true;
-            sx_destroy(&res.node);
-            ledger.on = false;
-            const int dlive = ledger.live;
-            mc_log("after sx_destroy: live=%d", dlive);
-            if (dlive != 0) {
-                const int again = live_on_second_presentation(via, buf, n);
-                if (again != 0)
-                    mc_fail("C20/destroy-frees-all", "%d allocation(s) of the parser still live after sx_destroy of the returned tree (%d on a second presentation)",
-                            dlive, again);
-            }
-        }
-        free(buf);
-        mc_end(e->nontrivial, e->outcome);
+        run_one(via, in, n, e, "");
+        c20_end(e->nontrivial, e->outcome);
     }
 }
 
@@ -712,7 +1103,8 @@ build_ref(int *p)
     }
     if (t < 3) {
         const int x = r_new(R_SYM);
-        snprintf(R[x].sym, sizeof R[x].sym, "%s", VSYM[t]);
+        R[x].sym = VSYM[t];
+        R[x].symlen = strlen(VSYM[t]);
         return x;
     }
     const int x = r_new(R_INT);
@@ -846,6 +1238,747 @@ family_trees(int maxnodes, int maxdepth)
 }
 
 /* ------------------------------------------------------------------------
+ * text builder for the generated inputs of the families below
+ * ---------------------------------------------------------------------- */
+struct tbuf {
+    char *p;
+    size_t n, cap;
+};
+
+static void
+tb_put(struct tbuf *b, const char *s, size_t n)
+{
+    if (b->n + n + 1 > b->cap) {
+        while (b->n + n + 1 > b->cap)
+            b->cap = b->cap ? 2 * b->cap : 256;
+        b->p = realloc(b->p, b->cap);
+        if (b->p == NULL)
+            mc_broken("no memory for a generated input");
+    }
+    memcpy(b->p + b->n, s, n);
+    b->n += n;
+    b->p[b->n] = 0;
+}
+
+static void tb_puts(struct tbuf *b, const char *s) { tb_put(b, s, strlen(s)); }
+static void tb_reset(struct tbuf *b) { b->n = 0; tb_put(b, "", 0); }
+
+static void
+tb_rep(struct tbuf *b, const char *s, unsigned times)
+{
+    const size_t l = strlen(s);
+    while (times-- > 0)
+        tb_put(b, s, l);
+}
+
+/* element k of a generated flat list.  ints: decimal k.  mixed, by k mod 8:
+ * 0 decimal k | 1 #x<K upper case> | 2 symbol e<k> | 3 () | 4 decimal k |
+ * 5 #x<k lower case> | 6 symbol s-<k> | 7 the one-element list (<k>) */
+enum { EL_INTS, EL_MIXED, NELEMS };
+static const char *const ELEMS_NAME[NELEMS] = { "ints", "mixed" };
+
+static void
+put_elem(struct tbuf *b, int elems, unsigned k)
+{
+    char t[32];
+    if (elems == EL_INTS) {
+        snprintf(t, sizeof t, "%u", k);
+    } else {
+        switch (k % 8u) {
+        case 1: snprintf(t, sizeof t, "#x%X", k); break;
+        case 2: snprintf(t, sizeof t, "e%u", k); break;
+        case 3: snprintf(t, sizeof t, "()"); break;
+        case 5: snprintf(t, sizeof t, "#x%x", k); break;
+        case 6: snprintf(t, sizeof t, "s-%u", k); break;
+        case 7: snprintf(t, sizeof t, "(%u)", k); break;
+        default: snprintf(t, sizeof t, "%u", k); break;
+        }
+    }
+    tb_puts(b, t);
+}
+
+/* "(" e0 sep e1 sep ... e(L-1) <ending> */
+enum { FE_COMPLETE, FE_OPEN, FE_OPEN_WS, FE_BADLAST, NFLATEND };
+static const char *const FLATEND_NAME[NFLATEND] = { "complete", "unterminated", "unterminated-then-space", "bad-last-element" };
+
+static void
+put_flat(struct tbuf *b, unsigned L, int elems, const char *sep, int ending)
+{
+    tb_puts(b, "(");
+    for (unsigned k = 0; k < L; ++k) {
+        if (k)
+            tb_puts(b, sep);
+        put_elem(b, elems, k);
+    }
+    switch (ending) {
+    case FE_COMPLETE: tb_puts(b, ")"); break;
+    case FE_OPEN: break;
+    case FE_OPEN_WS: tb_puts(b, " "); break;
+    case FE_BADLAST:
+        if (L)
+            tb_puts(b, sep);
+        tb_puts(b, "1a)");
+        break;
+    }
+}
+
+/* D times `open`, the atom, `closers` times `close` */
+static void
+put_nest(struct tbuf *b, unsigned D, const char *open, const char *atom, const char *close, unsigned closers)
+{
+    tb_rep(b, open, D);
+    tb_puts(b, atom);
+    tb_rep(b, close, closers);
+}
+
+/* ------------------------------------------------------------------------
+ * the reader's own answer to "is VT / FF inter-token whitespace"
+ * ---------------------------------------------------------------------- */
+static const unsigned char WORLD_OCTET[2] = { 0x0b, 0x0c };
+
+static bool
+probe_ws(int via, unsigned char c)
+{
+    const char t[3] = { '(', (char)c, ')' };
+    char *buf;
+    if (via == 0) {
+        buf = mc_exact(4);
+        memcpy(buf, t, 3);
+        buf[3] = 0;
+    } else {
+        buf = mc_exact_copy(t, 3);
+    }
+    struct sx_parse_result res = via ? sx_parse_stringn(buf, 3) : sx_parse_string(buf);
+    mc_trans(1);
+    const bool ws = is_success(res.status) && res.node != NULL && res.node->type == SXT_EMPTY_LIST && res.position == 3;
+    mc_log("probe \"(\\x%02x)\": status=%d position=%zu -> the reader %s 0x%02x as inter-token whitespace",
+           c, (int)res.status, res.position, ws ? "takes" : "does not take", c);
+    if (res.node != NULL)
+        sx_destroy(&res.node);
+    free(buf);
+    return ws;
+}
+
+/* bit k set: WORLD_OCTET[k] occurs in the input; ws_extra[] is set for those */
+static int
+probe_worlds(int via, const char *in, size_t n)
+{
+    int present = 0;
+    for (int k = 0; k < 2; ++k) {
+        ws_extra[WORLD_OCTET[k]] = false;
+        if (n > 0 && memchr(in, WORLD_OCTET[k], n) != NULL) {
+            present |= 1 << k;
+            ws_extra[WORLD_OCTET[k]] = probe_ws(via, WORLD_OCTET[k]);
+        }
+    }
+    return present;
+}
+
+/* Two cases of one input that may contain any octet.  via=string presents the
+ * octets before the first NUL (that is the input then); the expectation is
+ * computed per presentation, after the VT/FF probes. */
+static void
+present_raw(const char *what, const char *in, size_t n)
+{
+    char esc[300];
+    escape(in, n, esc, sizeof esc);
+    for (int via = 0; via < 2; ++via) {
+        if (!c20_case("%s len=%zu in=\"%s\" via=%s", what, n, esc, via ? "stringn" : "string"))
+            continue;
+        size_t m = n;
+        if (via == 0 && n > 0) {
+            const char *z = memchr(in, 0, n);
+            if (z != NULL)
+                m = (size_t)(z - in);
+        }
+        const int w = probe_worlds(via, in, m);
+        nR = 0;
+        struct expect e;
+        ref_read(in, m, &e);
+        if (w != 0) {
+            bool all_ws = true;
+            for (int k = 0; k < 2; ++k)
+                if ((w & (1 << k)) && !ws_extra[WORLD_OCTET[k]])
+                    all_ws = false;
+            if (!all_ws)
+                e.outcome = "vtff-not-whitespace-for-this-reader";
+            else if (e.verdict == V_OK)
+                e.outcome = "ok-vtff-as-whitespace";
+            else if (e.verdict == V_ERR)
+                e.outcome = "err-vtff-as-whitespace";
+            else
+                e.outcome = "open-vtff-as-whitespace";
+            e.nontrivial = true;
+        }
+        run_one(via, in, m, &e, "");
+        c20_end(e.nontrivial, e.outcome);
+        ws_extra[0x0b] = ws_extra[0x0c] = false;
+    }
+}
+
+/* ------------------------------------------------------------------------
+ * family (c): every octet 0..255 in every role (templates; '@' and '%' mark
+ * the positions of the octets under test)
+ * ---------------------------------------------------------------------- */
+static const char *const OCT_TEMPLATE[] = {
+    "@", "@a", "a@", "a@b", "12@", "1@2", "#xF@", "#xf@1", "(@)", "(@a)", "(a@)", "(a@b)", "(1@2)",
+    "(#xA@#xb)", "()@", "(a)@x", "(a@", "(@", "@(a)", "@)", "a@(", "((a)@(b))", "(a @b)", "(a@ b)",
+    "@@a", "a@@", "(a@@b)",
+};
+#define NOCT_TEMPLATE ((int)(sizeof OCT_TEMPLATE / sizeof OCT_TEMPLATE[0]))
+static const char *const OCT2_TEMPLATE[] = { "a@%", "(@%)", "(a@%b)", "1@%2" };
+#define NOCT2_TEMPLATE ((int)(sizeof OCT2_TEMPLATE / sizeof OCT2_TEMPLATE[0]))
+/* quick: the pairs over these; thorough: all 65536 pairs */
+static const unsigned char OCT2_SUBSET[] = { 0x00, 0x01, 0x08, 0x09, 0x0a, 0x0b, 0x0c, 0x0d, 0x0e, 0x1f, 0x20, '(', ')',
+                                             '+', '-', '1', 'a', '{', 0x7f, 0x80, 0x85, 0xa0, 0xff };
+
+static void
+family_octets(void)
+{
+    for (int t = 0; t < NOCT_TEMPLATE; ++t)
+        for (int c = 0; c < 256; ++c) {
+            if (!(would_run_at(0) || would_run_at(1))) {
+                mc_skip_case();
+                mc_skip_case();
+                continue;
+            }
+            char in[24];
+            const size_t n = strlen(OCT_TEMPLATE[t]);
+            for (size_t k = 0; k < n; ++k)
+                in[k] = OCT_TEMPLATE[t][k] == '@' ? (char)c : OCT_TEMPLATE[t][k];
+            char what[64];
+            snprintf(what, sizeof what, "oct tmpl=%s c=0x%02x", OCT_TEMPLATE[t], c);
+            present_raw(what, in, n);
+        }
+    const int npair = mc_thorough() ? 256 : (int)sizeof OCT2_SUBSET;
+    for (int t = 0; t < NOCT2_TEMPLATE; ++t)
+        for (int i = 0; i < npair; ++i)
+            for (int j = 0; j < npair; ++j) {
+                if (!(would_run_at(0) || would_run_at(1))) {
+                    mc_skip_case();
+                    mc_skip_case();
+                    continue;
+                }
+                const int c = mc_thorough() ? i : OCT2_SUBSET[i], d = mc_thorough() ? j : OCT2_SUBSET[j];
+                char in[24];
+                const size_t n = strlen(OCT2_TEMPLATE[t]);
+                for (size_t k = 0; k < n; ++k)
+                    in[k] = OCT2_TEMPLATE[t][k] == '@' ? (char)c : OCT2_TEMPLATE[t][k] == '%' ? (char)d : OCT2_TEMPLATE[t][k];
+                char what[64];
+                snprintf(what, sizeof what, "oct2 tmpl=%s c=0x%02x d=0x%02x", OCT2_TEMPLATE[t], c, d);
+                present_raw(what, in, n);
+            }
+}
+
+/* ------------------------------------------------------------------------
+ * family (d): all strings over further alphabets (any octets)
+ * ---------------------------------------------------------------------- */
+static void
+family_strings_over(const char *name, const char *alpha, int nalpha, int maxlen)
+{
+    for (int len = 0; len <= maxlen; ++len) {
+        int d[16] = { 0 };
+        for (;;) {
+            if (would_run_at(0) || would_run_at(1)) {
+                char in[17];
+                for (int k = 0; k < len; ++k)
+                    in[k] = alpha[d[k]];
+                in[len] = 0;
+                present_raw(name, in, (size_t)len);
+            } else {
+                mc_skip_case();
+                mc_skip_case();
+            }
+            int k = len - 1;
+            while (k >= 0 && ++d[k] == nalpha)
+                d[k--] = 0;
+            if (k < 0)
+                break;
+        }
+    }
+}
+
+static const char WALPHA[8] = { '(', ')', 'a', '1', 0x0b, 0x0c, '\r', '\t' };
+static const char OALPHA[9] = { '(', ')', 'a', '1', ' ', 0x00, (char)0x80, (char)0xff, '+' };
+
+/* ------------------------------------------------------------------------
+ * family (e): list lengths on a boundary family
+ * ---------------------------------------------------------------------- */
+static struct tbuf gen; /* the generated input of the case at hand */
+
+static void
+log_generated(void)
+{
+    if (!mc.verbose)
+        return;
+    char esc[300];
+    escape(gen.p, gen.n < 100 ? gen.n : 100, esc, sizeof esc);
+    mc_log("generated input, %zu octets, begins \"%s\"%s", gen.n, esc, gen.n > 100 ? " ..." : "");
+}
+
+enum { WR_BARE, WR_IN2, WR_TWICE, NWRAP };
+static const char *const WRAP_NAME[NWRAP] = { "bare", "(a_LIST_b)", "(LIST_LIST)" };
+
+static int64_t len_cases, depth_cases, hist_cases;
+/* every length / depth up to here; above, 2^p-1 .. 2^p+1.  Dense enough to cross
+ * the first few steps of growth by a constant (8, 10, 16, 32) and by a factor
+ * (1.5, 2) from a small start. */
+#define LEN_DENSE (mc_thorough() ? 520u : 100u)
+#define DEPTH_DENSE (mc_thorough() ? 300u : 100u)
+
+static void
+len_case(unsigned L, int elems, int wrap, int ending, bool trailing, int sepk)
+{
+    static const char *const SEP[2] = { " ", "\n\t " };
+    static const char *const SEP_NAME[2] = { "space", "newline-tab-space" };
+    for (int via = 0; via < 2; ++via) {
+        len_cases++;
+        if (!c20_case("len L=%u elems=%s wrap=%s end=%s%s sep=%s via=%s", L, ELEMS_NAME[elems], WRAP_NAME[wrap],
+                     FLATEND_NAME[ending], trailing ? "+trailing" : "", SEP_NAME[sepk], via ? "stringn" : "string"))
+            continue;
+        tb_reset(&gen);
+        if (wrap == WR_IN2)
+            tb_puts(&gen, "(a ");
+        if (wrap == WR_TWICE) {
+            tb_puts(&gen, "(");
+            put_flat(&gen, L, elems, SEP[sepk], FE_COMPLETE);
+            tb_puts(&gen, SEP[sepk]);
+        }
+        put_flat(&gen, L, elems, SEP[sepk], ending);
+        if (wrap == WR_IN2)
+            tb_puts(&gen, " b)");
+        if (wrap == WR_TWICE)
+            tb_puts(&gen, ")");
+        if (trailing)
+            tb_puts(&gen, "  ) x");
+        log_generated();
+        nR = 0;
+        struct expect e;
+        ref_read(gen.p, gen.n, &e);
+        if (ending == FE_COMPLETE && (e.verdict != V_OK || e.longest < (long)L))
+            mc_broken("len family: the reference reader does not find the %u-element list it was given", L);
+        if (ending != FE_COMPLETE && e.verdict != V_ERR)
+            mc_broken("len family: the reference reader accepts a broken list");
+        if (L > 32)
+            e.outcome = e.verdict == V_OK ? "ok-list-over-32" : "err-in-list-over-32";
+        run_one(via, gen.p, gen.n, &e, "");
+        c20_end(true, e.outcome);
+    }
+}
+
+static void
+family_lengths(void)
+{
+    /* every length up to `dense`, then three lengths around each power of two */
+    const unsigned dense = LEN_DENSE;
+    for (unsigned L = 0; L <= dense; ++L)
+        for (int elems = 0; elems < NELEMS; ++elems)
+            for (int wrap = 0; wrap < NWRAP; ++wrap)
+                for (int ending = 0; ending < NFLATEND; ++ending)
+                    for (int sepk = 0; sepk < 2; ++sepk) {
+                        len_case(L, elems, wrap, ending, false, sepk);
+                        if (ending == FE_COMPLETE)
+                            len_case(L, elems, wrap, ending, true, sepk);
+                    }
+    for (unsigned p = 6; p <= 16; ++p)
+        for (unsigned L = (1u << p) - 1u; L <= (1u << p) + 1u; ++L) {
+            if (L <= dense)
+                continue;
+            const bool big = L > 1100u;
+            if (big && !mc_thorough() && p != 16)
+                continue; /* quick: 2^16 +- 1 stands for the large boundaries */
+            for (int elems = 0; elems < NELEMS; ++elems)
+                for (int wrap = 0; wrap < (big ? 2 : NWRAP); ++wrap)
+                    for (int ending = 0; ending < NFLATEND; ++ending) {
+                        if (big && !mc_thorough() && (elems != EL_INTS || wrap != WR_BARE || ending == FE_OPEN_WS))
+                            continue;
+                        len_case(L, elems, wrap, ending, false, 0);
+                        if (ending == FE_COMPLETE && !big)
+                            len_case(L, elems, wrap, ending, true, 1);
+                    }
+        }
+    /* 33 / 96 / 97: straddle growth by 32 (2^p +- 1 covers 31..33, 63..65, 127..129) */
+    for (unsigned L = 95; L <= 97 && L > dense; ++L)
+        for (int elems = 0; elems < NELEMS; ++elems)
+            for (int ending = 0; ending < NFLATEND; ++ending)
+                len_case(L, elems, WR_BARE, ending, false, 0);
+}
+
+/* ------------------------------------------------------------------------
+ * family (f): nesting depths on a boundary family
+ * ---------------------------------------------------------------------- */
+enum { DS_NEST, DS_COMB, NDSHAPE };
+static const char *const DSHAPE_NAME[NDSHAPE] = { "((..ATOM..))", "(a_(a_..ATOM.._b)_b)" };
+enum { DE_COMPLETE, DE_TRAILING, DE_OPENS_ONLY, DE_ONE_CLOSE_SHORT, DE_BAD_ATOM, NDEND };
+static const char *const DEND_NAME[NDEND] = { "complete", "complete+trailing", "opens-only", "one-close-short", "bad-atom" };
+static const char *const DATOM[3] = { "x", "12", "()" };
+
+static void
+depth_case(unsigned D, int shape, int atom, int ending)
+{
+    for (int via = 0; via < 2; ++via) {
+        depth_cases++;
+        if (!c20_case("depth D=%u shape=%s atom=%s end=%s via=%s", D, DSHAPE_NAME[shape], DATOM[atom], DEND_NAME[ending],
+                     via ? "stringn" : "string"))
+            continue;
+        const char *open = shape == DS_NEST ? "(" : "(a ";
+        const char *close = shape == DS_NEST ? ")" : " b)";
+        tb_reset(&gen);
+        switch (ending) {
+        case DE_COMPLETE: put_nest(&gen, D, open, DATOM[atom], close, D); break;
+        case DE_TRAILING: put_nest(&gen, D, open, DATOM[atom], close, D); tb_puts(&gen, ")  x"); break;
+        case DE_OPENS_ONLY: put_nest(&gen, D, open, "", close, 0); break;
+        case DE_ONE_CLOSE_SHORT: put_nest(&gen, D, open, DATOM[atom], close, D - 1u); break;
+        case DE_BAD_ATOM: put_nest(&gen, D, open, "1a", close, D); break;
+        }
+        log_generated();
+        nR = 0;
+        struct expect e;
+        ref_read(gen.p, gen.n, &e);
+        const bool complete = ending == DE_COMPLETE || ending == DE_TRAILING;
+        if (complete && (e.verdict != V_OK || e.deepest < (int)D))
+            mc_broken("depth family: the reference reader does not find the %u levels it was given", D);
+        if (!complete && e.verdict != V_ERR)
+            mc_broken("depth family: the reference reader accepts a broken nest");
+        if (D > 64)
+            e.outcome = e.verdict == V_OK ? "ok-depth-over-64" : "err-depth-over-64";
+        run_one(via, gen.p, gen.n, &e, "");
+        c20_end(true, e.outcome);
+    }
+}
+
+static void
+family_depths(void)
+{
+    const unsigned dense = DEPTH_DENSE;
+    const unsigned maxp = mc_thorough() ? 12u : 10u;
+    for (unsigned D = 1; D <= dense; ++D)
+        for (int shape = 0; shape < NDSHAPE; ++shape)
+            for (int atom = 0; atom < 3; ++atom)
+                for (int ending = 0; ending < NDEND; ++ending)
+                    depth_case(D, shape, atom, ending);
+    for (unsigned p = 6; p <= maxp; ++p)
+        for (unsigned D = (1u << p) - 1u; D <= (1u << p) + 1u; ++D) {
+            if (D <= dense)
+                continue;
+            for (int shape = 0; shape < NDSHAPE; ++shape)
+                for (int atom = 0; atom < 3; ++atom)
+                    for (int ending = 0; ending < NDEND; ++ending)
+                        depth_case(D, shape, atom, ending);
+        }
+}
+
+/* ------------------------------------------------------------------------
+ * family (h): atom sizes and integer values on boundary families
+ * ---------------------------------------------------------------------- */
+static int64_t atom_cases;
+
+/* symbol of n octets: a letter that depends on n, then a fixed cycle of
+ * letters, digits and '-' */
+static void
+put_symbol(struct tbuf *b, unsigned n)
+{
+    static const char CYCLE[13] = { 'b', 'c', 'x', 'y', 'z', 'A', 'B', 'Z', '0', '1', '9', '-', 'q' };
+    for (unsigned k = 0; k < n; ++k) {
+        const char c = k == 0 ? (char)('a' + n % 26u) : CYCLE[k % 13u];
+        tb_put(b, &c, 1);
+    }
+}
+
+enum { RX_DEC, RX_HEXLOWER, RX_HEXUPPER, NRADIX };
+static const char *const RADIX_NAME[NRADIX] = { "decimal", "hex-lower", "hex-upper" };
+
+static void
+put_integer(struct tbuf *b, uint64_t v, int radix)
+{
+    char t[40];
+    snprintf(t, sizeof t, radix == RX_DEC ? "%" PRIu64 : radix == RX_HEXLOWER ? "#x%" PRIx64 : "#x%" PRIX64, v);
+    tb_puts(b, t);
+}
+
+/* the atom in its surroundings; '@' marks the atom */
+static const char *const ATOM_CONTEXT[] = { "@", "(@)", "(1 @ a)", "(@ @)", "@)  x", "  @\n", "(@", "(a @ ", "@{" };
+#define NATOM_CONTEXT ((int)(sizeof ATOM_CONTEXT / sizeof ATOM_CONTEXT[0]))
+
+static void
+atom_case(bool is_symbol, unsigned symlen, uint64_t v, int radix, int ctx)
+{
+    for (int via = 0; via < 2; ++via) {
+        atom_cases++;
+        const bool run = is_symbol
+            ? c20_case("atom symbol of %u octets in %s via=%s", symlen, ATOM_CONTEXT[ctx], via ? "stringn" : "string")
+            : c20_case("atom integer %" PRIu64 " %s in %s via=%s", v, RADIX_NAME[radix], ATOM_CONTEXT[ctx], via ? "stringn" : "string");
+        if (!run)
+            continue;
+        tb_reset(&gen);
+        for (const char *c = ATOM_CONTEXT[ctx]; *c; ++c) {
+            if (*c != '@')
+                tb_put(&gen, c, 1);
+            else if (is_symbol)
+                put_symbol(&gen, symlen);
+            else
+                put_integer(&gen, v, radix);
+        }
+        log_generated();
+        nR = 0;
+        struct expect e;
+        ref_read(gen.p, gen.n, &e);
+        if (ctx <= 5 && e.verdict != V_OK)
+            mc_broken("atom family: the reference reader refuses a generated atom");
+        if (ctx > 5 && e.verdict != V_ERR)
+            mc_broken("atom family: the reference reader accepts a broken input");
+        if (e.verdict == V_OK) {
+            if (is_symbol && symlen > 32)
+                e.outcome = "ok-symbol-over-32-octets";
+            if (!is_symbol && v >= ((uint64_t)1 << 32))
+                e.outcome = v >= ((uint64_t)1 << 63) ? "ok-integer-top-bit-set" : "ok-integer-over-32-bits";
+        } else if (is_symbol && symlen > 32) {
+            e.outcome = "err-with-symbol-over-32-octets";
+        }
+        run_one(via, gen.p, gen.n, &e, "");
+        c20_end(true, e.outcome);
+    }
+}
+
+static void
+family_atoms(void)
+{
+    const unsigned dense = mc_thorough() ? 300u : 80u;
+    for (unsigned n = 1; n <= dense; ++n)
+        for (int ctx = 0; ctx < NATOM_CONTEXT; ++ctx)
+            atom_case(true, n, 0, 0, ctx);
+    for (unsigned p = 7; p <= 16; ++p)
+        for (unsigned n = (1u << p) - 1u; n <= (1u << p) + 1u; ++n)
+            if (n > dense)
+                for (int ctx = 0; ctx < NATOM_CONTEXT; ++ctx)
+                    atom_case(true, n, 0, 0, ctx);
+    /* integers: 0, 2^k-1, 2^k, 2^k+1 for k = 1..64 (below 2^64), 10^k-1, 10^k for k = 1..19 */
+    uint64_t vals[3 * 64 + 2 * 19 + 2];
+    int nv = 0;
+    vals[nv++] = 0;
+    for (unsigned k = 1; k <= 64; ++k) {
+        const uint64_t pw = k < 64 ? (uint64_t)1 << k : 0;
+        vals[nv++] = pw - 1u;
+        if (k < 64) {
+            vals[nv++] = pw;
+            vals[nv++] = pw + 1u;
+        }
+    }
+    uint64_t ten = 1;
+    for (unsigned k = 1; k <= 19; ++k) {
+        ten *= 10u;
+        vals[nv++] = ten - 1u;
+        vals[nv++] = ten;
+    }
+    for (int i = 0; i < nv; ++i)
+        for (int radix = 0; radix < NRADIX; ++radix)
+            for (int ctx = 0; ctx + 1 < NATOM_CONTEXT; ++ctx) /* "@{" is for symbols */
+                atom_case(false, 0, vals[i], radix, ctx);
+    /* an integer directly followed by a letter that is no digit of its radix */
+    for (int i = 0; i < nv; ++i)
+        for (int radix = 0; radix < NRADIX; ++radix)
+            for (int via = 0; via < 2; ++via) {
+                atom_cases++;
+                if (!c20_case("atom integer %" PRIu64 " %s followed by g via=%s", vals[i], RADIX_NAME[radix], via ? "stringn" : "string"))
+                    continue;
+                tb_reset(&gen);
+                put_integer(&gen, vals[i], radix);
+                tb_puts(&gen, "g");
+                nR = 0;
+                struct expect e;
+                ref_read(gen.p, gen.n, &e);
+                if (e.verdict != V_ERR)
+                    mc_broken("atom family: the reference reader accepts an integer followed by g");
+                run_one(via, gen.p, gen.n, &e, "");
+                c20_end(true, e.outcome);
+            }
+}
+
+/* ------------------------------------------------------------------------
+ * family (g): parse histories inside one case.  The statement gives the result
+ * of a parse as a function of the input alone, so every call of a sequence is
+ * held against the reference reader, whatever was parsed (or refused) before.
+ * ---------------------------------------------------------------------- */
+enum ikind { I_LIT, I_NEST, I_OPENS, I_NEST_BAD, I_FLAT, I_FLAT_OPEN, I_FLAT_BAD };
+struct item {
+    const char *name; /* as it appears in the descriptor */
+    enum ikind kind;
+    const char *lit;
+    unsigned n;
+};
+/* nest<D>: D '(' x D ')'.  opens<D>: D '('.  nestbad<D>: D '(' 1a D ')'.
+ * flat<L>: (0 1 .. L-1).  flatopen<L>: the same without ')'.  flatbad<L>: (0 1 .. L-1 1a) */
+static const struct item ITEMS[] = {
+    /* the first HIST_CORE items make up the histories of length four (thorough) */
+    { "\"(a (b) 12)\"", I_LIT, "(a (b) 12)", 0 },
+    { "\"()\"", I_LIT, "()", 0 },
+    { "\"#xFf\"", I_LIT, "#xFf", 0 },
+    { "\"(a\"", I_LIT, "(a", 0 },
+    { "\"(a (b 1a\"", I_LIT, "(a (b 1a", 0 },
+    { "\")\"", I_LIT, ")", 0 },
+    { "\"\"", I_LIT, "", 0 },
+    { "\"1a\"", I_LIT, "1a", 0 },
+    { "nest64", I_NEST, NULL, 64 },
+    { "nest65", I_NEST, NULL, 65 },
+    { "opens65", I_OPENS, NULL, 65 },
+    { "nestbad65", I_NEST_BAD, NULL, 65 },
+    { "flat33", I_FLAT, NULL, 33 },
+    { "flatopen33", I_FLAT_OPEN, NULL, 33 },
+#define HIST_CORE 14
+    { "\"a\"", I_LIT, "a", 0 },
+    { "\"12\"", I_LIT, "12", 0 },
+    { "\"(a)\"", I_LIT, "(a)", 0 },
+    { "\"(()())\"", I_LIT, "(()())", 0 },
+    { "\" ( a ) x\"", I_LIT, " ( a ) x", 0 },
+    { "\" \"", I_LIT, " ", 0 },
+    { "\"(\"", I_LIT, "(", 0 },
+    { "\"( \"", I_LIT, "( ", 0 },
+    { "\"((a)\"", I_LIT, "((a)", 0 },
+    { "\"(1a\"", I_LIT, "(1a", 0 },
+    { "\"#x\"", I_LIT, "#x", 0 },
+    { "\"-a\"", I_LIT, "-a", 0 },
+    { "nest8", I_NEST, NULL, 8 },
+    { "nest33", I_NEST, NULL, 33 },
+    { "opens200", I_OPENS, NULL, 200 },
+    { "flat32", I_FLAT, NULL, 32 },
+    { "flatbad33", I_FLAT_BAD, NULL, 33 },
+    { "\"(#xg)\"", I_LIT, "(#xg)", 0 },
+    { "\"#x1g\"", I_LIT, "#x1g", 0 },
+    { "\"(b a{)\"", I_LIT, "(b a{)", 0 },
+#define HIST_QUICK 34
+    { "\"(a (b) 12\"", I_LIT, "(a (b) 12", 0 },
+    { "\"((\"", I_LIT, "((", 0 },
+    { "\"(()\"", I_LIT, "(()", 0 },
+    { "\"a b\"", I_LIT, "a b", 0 },
+    { "\"(a))\"", I_LIT, "(a))", 0 },
+    { "\"a#\"", I_LIT, "a#", 0 },
+    { "nest16", I_NEST, NULL, 16 },
+    { "nest17", I_NEST, NULL, 17 },
+    { "nest32", I_NEST, NULL, 32 },
+    { "nest128", I_NEST, NULL, 128 },
+    { "nest129", I_NEST, NULL, 129 },
+    { "nest1025", I_NEST, NULL, 1025 },
+    { "opens33", I_OPENS, NULL, 33 },
+    { "nestbad8", I_NEST_BAD, NULL, 8 },
+    { "flat65", I_FLAT, NULL, 65 },
+    { "flat1025", I_FLAT, NULL, 1025 },
+    { "flatopen65", I_FLAT_OPEN, NULL, 65 },
+};
+#define NITEMS ((int)(sizeof ITEMS / sizeof ITEMS[0]))
+
+static void
+put_item(struct tbuf *b, const struct item *it)
+{
+    tb_reset(b);
+    switch (it->kind) {
+    case I_LIT: tb_puts(b, it->lit); break;
+    case I_NEST: put_nest(b, it->n, "(", "x", ")", it->n); break;
+    case I_OPENS: put_nest(b, it->n, "(", "", ")", 0); break;
+    case I_NEST_BAD: put_nest(b, it->n, "(", "1a", ")", it->n); break;
+    case I_FLAT: put_flat(b, it->n, EL_INTS, " ", FE_COMPLETE); break;
+    case I_FLAT_OPEN: put_flat(b, it->n, EL_INTS, " ", FE_OPEN); break;
+    case I_FLAT_BAD: put_flat(b, it->n, EL_INTS, " ", FE_BADLAST); break;
+    }
+}
+
+static const struct item *
+item_named(const char *name)
+{
+    for (int k = 0; k < NITEMS; ++k)
+        if (!strcmp(ITEMS[k].name, name))
+            return &ITEMS[k];
+    mc_broken("history family: no item called %s", name);
+}
+
+/* One call of a history; returns the reference verdict. */
+static enum verdict
+hist_step(int via, const struct item *it, int step, int of, struct expect *e)
+{
+    char ctx[96];
+    snprintf(ctx, sizeof ctx, "call %d of %d (%s): ", step, of, it->name);
+    put_item(&gen, it);
+    nR = 0;
+    ref_read(gen.p, gen.n, e);
+    run_one(via, gen.p, gen.n, e, ctx);
+    return e->verdict;
+}
+
+static const char *
+hist_outcome(bool failed_before, enum verdict last)
+{
+    if (last == V_OPEN)
+        return "hist-last-open";
+    if (last == V_OK)
+        return failed_before ? "hist-ok-after-refused-input" : "hist-ok-after-ok";
+    return failed_before ? "hist-refused-after-refused-input" : "hist-refused-after-ok";
+}
+
+static void
+hist_case(const int *ix, int k)
+{
+    for (int via = 0; via < 2; ++via) {
+        hist_cases++;
+        char desc[300];
+        size_t l = 0;
+        for (int j = 0; j < k; ++j)
+            l += (size_t)snprintf(desc + l, sizeof desc - l, "%s%s", j ? " | " : "", ITEMS[ix[j]].name);
+        if (!c20_case("hist calls=%d [%s] via=%s", k, desc, via ? "stringn" : "string"))
+            continue;
+        bool failed_before = false;
+        enum verdict last = V_OK;
+        struct expect e;
+        for (int j = 0; j < k; ++j) {
+            if (j > 0 && last != V_OK)
+                failed_before = true;
+            last = hist_step(via, &ITEMS[ix[j]], j + 1, k, &e);
+        }
+        c20_end(true, hist_outcome(failed_before, last));
+    }
+}
+
+static void
+family_histories(void)
+{
+    const int nitems = mc_thorough() ? NITEMS : HIST_QUICK;
+    int ix[4];
+    for (ix[0] = 0; ix[0] < nitems; ++ix[0])
+        for (ix[1] = 0; ix[1] < nitems; ++ix[1])
+            hist_case(ix, 2);
+    for (ix[0] = 0; ix[0] < nitems; ++ix[0])
+        for (ix[1] = 0; ix[1] < nitems; ++ix[1])
+            for (ix[2] = 0; ix[2] < nitems; ++ix[2])
+                hist_case(ix, 3);
+    if (mc_thorough())
+        for (ix[0] = 0; ix[0] < HIST_CORE; ++ix[0])
+            for (ix[1] = 0; ix[1] < HIST_CORE; ++ix[1])
+                for (ix[2] = 0; ix[2] < HIST_CORE; ++ix[2])
+                    for (ix[3] = 0; ix[3] < HIST_CORE; ++ix[3])
+                        hist_case(ix, 4);
+
+    /* the same refused (or deep) input many times over, then a probe */
+    static const char *const REPEATED[] = { "opens65", "opens200", "nestbad65", "\"(1a\"", "\"((a)\"", "\")\"",
+                                            "nest65", "flatopen33", "flatbad33" };
+    static const char *const PROBE[] = { "\"()\"", "\"(a (b) 12)\"", "nest8", "nest33", "nest64", "flat33", "\"(a\"" };
+    static const int TIMES[] = { 1, 2, 3, 4, 8, 16, 32, 33, 63, 64, 65, 128, 129 };
+    for (size_t r = 0; r < sizeof REPEATED / sizeof REPEATED[0]; ++r)
+        for (size_t t = 0; t < sizeof TIMES / sizeof TIMES[0]; ++t)
+            for (size_t q = 0; q < sizeof PROBE / sizeof PROBE[0]; ++q)
+                for (int via = 0; via < 2; ++via) {
+                    hist_cases++;
+                    if (!c20_case("hist-repeat %d x %s then %s via=%s", TIMES[t], REPEATED[r], PROBE[q], via ? "stringn" : "string"))
+                        continue;
+                    const struct item *rep = item_named(REPEATED[r]), *probe = item_named(PROBE[q]);
+                    struct expect e;
+                    enum verdict v = V_OK;
+                    for (int j = 0; j < TIMES[t]; ++j)
+                        v = hist_step(via, rep, j + 1, TIMES[t] + 1, &e);
+                    const bool failed_before = v != V_OK;
+                    v = hist_step(via, probe, TIMES[t] + 1, TIMES[t] + 1, &e);
+                    c20_end(true, hist_outcome(failed_before, v));
+                }
+}
+
+/* ------------------------------------------------------------------------
  * anchors: the reference reader against the literal values of
  * /repo/test/t-sx-parser.c
  * ---------------------------------------------------------------------- */
@@ -859,7 +1992,7 @@ nth(int list, int k)
 }
 
 static bool is_int(int x, uint64_t v) { return x >= 0 && R[x].kind == R_INT && R[x].val == v; }
-static bool is_sym(int x, const char *s) { return x >= 0 && R[x].kind == R_SYM && !strcmp(R[x].sym, s); }
+static bool is_sym(int x, const char *s) { return x >= 0 && R[x].kind == R_SYM && R[x].symlen == strlen(s) && !memcmp(R[x].sym, s, R[x].symlen); }
 static int
 len_of(int list)
 {
@@ -933,22 +2066,68 @@ anchors(void)
     MC_ANCHOR(before >= 1 && ledger.live < before, "a free() issued by sx.c reaches the ledger");
 }
 
-int
-main(int argc, char **argv)
+/* The enumeration runs on a thread with a 1 GiB stack: the reader recurses once
+ * per list element and per nesting level, and how much stack a process has is
+ * a property of the environment, not of the reader.  (The default 8 MiB end at
+ * about 30000 elements under ASan.) */
+static int g_argc;
+static char **g_argv;
+
+static void *
+enumerate(void *unused)
 {
-    mc_init(argc, argv);
+    (void)unused;
+    mc_init(g_argc, g_argv);
+    meta_setup();
     anchors();
     const int maxlen = mc_thorough() ? 8 : 7;
     const int maxnodes = mc_thorough() ? 7 : 6;
     const int maxdepth = mc_thorough() ? 5 : 4;
+    const int wlen = mc_thorough() ? 8 : 6;
+    const int olen = mc_thorough() ? 7 : 5;
+    in_history_family = true;
+    family_histories(); /* first: see "Failures of a sweep are confirmed" above */
+    history_family_done();
     family_strings(maxlen);
     family_trees(maxnodes, maxdepth);
     if (trees_emitted < 1000 && mc.only < 0)
         mc_broken("vacuous: only %lld trees generated", (long long)trees_emitted);
-    char bound[300];
+    family_octets();
+    family_strings_over("wstr", WALPHA, (int)sizeof WALPHA, wlen);
+    family_strings_over("ostr", OALPHA, (int)sizeof OALPHA, olen);
+    family_lengths();
+    family_depths();
+    family_atoms();
+    char bound[1400];
     snprintf(bound, sizeof bound,
-             "all strings of length 0..%d over \"() \\n a1#xF-\"; all %lld trees of <= %d nodes, depth <= %d over symbols {a,foo,x-1}, integers {0,7,255,2^32,0xabcdef} in %d renderings; each input NUL-terminated and as exact-size block",
-             maxlen, (long long)trees_emitted, maxnodes, maxdepth, (int)NSTYLE);
+             "all strings of length 0..%d over \"() \\n a1#xF-\"; all %lld trees of <= %d nodes, depth <= %d over symbols {a,foo,x-1}, integers {0,7,255,2^32,0xabcdef} in %d renderings; "
+             "every octet 0..255 in %d one-octet templates, %s octet pairs in %d two-octet templates; all strings of length 0..%d over \"()a1 VT FF CR HT\" and 0..%d over \"()a1 SP NUL 0x80 0xff +\"; "
+             "%lld list-length cases (every length 0..%u, 2^p-1..2^p+1 up to 65537; ints/mixed elements, 3 wrappers, 4 endings, 2 separators); "
+             "%lld nesting-depth cases (every depth 1..%u, 2^p-1..2^p+1 up to %u; 2 shapes, 3 atoms, 5 endings); "
+             "%lld atom cases (symbols of every length 1..%u and 2^p-1..2^p+1 up to 65537 octets in 9 surroundings; integers 0, 2^k-1, 2^k, 2^k+1 (k=1..64), 10^k-1, 10^k (k=1..19) in decimal and both hex cases in 8 surroundings and followed by a letter); "
+             "%lld history cases (all ordered pairs and triples of %d inputs%s; 9 refused/deep inputs repeated 1..129 times before 7 probes); each input NUL-terminated and as exact-size block",
+             maxlen, (long long)trees_emitted, maxnodes, maxdepth, (int)NSTYLE,
+             NOCT_TEMPLATE, mc_thorough() ? "all 65536" : "23x23", NOCT2_TEMPLATE, wlen, olen,
+             (long long)len_cases, LEN_DENSE,
+             (long long)depth_cases, DEPTH_DENSE, mc_thorough() ? 4097u : 1025u,
+             (long long)atom_cases, mc_thorough() ? 300u : 80u,
+             (long long)hist_cases, mc_thorough() ? NITEMS : HIST_QUICK, mc_thorough() ? ", all quadruples of 14" : "");
     mc_finish(true, bound);
+    return NULL;
+}
+
+int
+main(int argc, char **argv)
+{
+    g_argc = argc;
+    g_argv = argv;
+    pthread_attr_t at;
+    pthread_t th;
+    if (pthread_attr_init(&at) != 0 || pthread_attr_setstacksize(&at, (size_t)1 << 30) != 0
+        || pthread_create(&th, &at, enumerate, NULL) != 0) {
+        fprintf(stderr, "HARNESS-BROKEN: cannot start the enumeration thread\n");
+        return 2;
+    }
+    pthread_join(th, NULL);
     return 0;
 }
